@@ -158,6 +158,20 @@ func c01ValueKinds() ([]Finding, int) {
 					if len(fired) != 2 || !sameValue(fired[1], v) || c.Count() != 0 {
 						return fmt.Sprintf("after the cleanup pass: deliveries %v, Count %d", fired, c.Count())
 					}
+					// the value stored over itself by every storing call (an "unchanged?" shortcut would compare values)
+					c.SetForever("k", v)
+					c.SetForever("k", v)
+					c.Set("k", v, -1)
+					c.SetDefault("k", v)
+					if old, loaded := c.GetAndSet("k", v, 0); !loaded || !sameValue(old, v) {
+						return fmt.Sprintf("GetAndSet over the same value returned (%v,%v)", old, loaded)
+					}
+					if got, loaded := c.GetOrCompute("k", func() interface{} { return "other" }, 0); !loaded || !sameValue(got, v) {
+						return fmt.Sprintf("GetOrCompute on the present key returned (%v,%v)", got, loaded)
+					}
+					if got, ok := c.Get("k"); !ok || !sameValue(got, v) || c.Count() != 1 {
+						return fmt.Sprintf("Get after storing the value over itself returned (%v,%v), Count %d", got, ok, c.Count())
+					}
 					return ""
 				}()
 				if problem != "" {
